@@ -296,6 +296,16 @@ Definition propka_label (rtype : string) (num : Z) (chain : string) : string :=
 Definition pipeline (ff : ffid) (ph : Q) (rows : list pkarow) (rs : list residue) : list result * pkadic :=
   apply_pka_values ff ph (dict_of_rows rows) rs.
 
+(* the pH on its way from the request to the comparison: argparse type=float,
+   main.transform_arguments, main_driver, non_trivial hand args.ph on unchanged
+   (no rounding, no clamping; check_options only rejects values outside [0, 14]).
+   The identity is an OBLIGATION OF THE TIE: every end-to-end run of the check
+   compares the float that reaches apply_pka_values with float(requested text). *)
+Definition ph_of_args (requested : Q) : Q := requested.
+
+Definition run_titration (ff : ffid) (requested : Q) (rows : list pkarow) (rs : list residue) : list result * pkadic :=
+  pipeline ff (ph_of_args requested) rows rs.
+
 (* ---- resulting state name (aa.py set_state), local C02-style naming ---------- *)
 
 Inductive rtype :=
